@@ -176,3 +176,11 @@ Example astral_texts_compared_modulo_field_order :
   IntrospectCheck.default_agrees (Some (nm "{a: " ++ [34; 240; 144; 128; 128; 34; 125])%list)
                                  (DText (nm "{a: " ++ [34] ++ IntrospectCheck.pu 0 ++ IntrospectCheck.pu 48 ++ IntrospectCheck.pu 32 ++ IntrospectCheck.pu 32 ++ [34; 125])%list) = false.
 Proof. vm_compute. repeat split. Qed.
+
+(** the two additional hypotheses of [C10_rebuild_same_lookups] hold of the example definition:
+    unique type names, and C13's transcription of schema.New's acceptance checks on its registry *)
+From ApiFu Require Intro.ViewBridge.
+Example lookups_hypotheses :
+  nodup_b (map fst (types S_ex)) = true /\
+  ViewBridge.FM.schema_ok (ViewBridge.to_feat (ViewBridge.registered S_ex)) = true.
+Proof. vm_compute. split; reflexivity. Qed.
